@@ -68,6 +68,11 @@ CHECKS = {
         "Generated-input search over (a,b,f) in u64 x u64 x (u64\\{0}) with a boundary-heavy mixture, all Durations, and scripted uniform-step clocks; the oracle is a validity predicate q*f <= (b-a)*10^12 < (q+1)*f evaluated in checked 128-bit arithmetic, independent of the implementation's expression. Exploration, not proof: absence is not established, but every boundary class named in the property is generated thousands of times per run.",
         "Trusts the cfg(divan_verif) wrappers (they call the production functions unchanged) and the scripted TSC reader for the precision clause (precondition: a non-zero one-step difference is observable at least once per 50 reading pairs).",
         "DESIGN.md section 4, C11"),
+    "C12": (
+        "generated programs compiled with the real macros (program-level property-based testing): expected registrations from the program model vs registry dump, executed cases and listings; metamorphic re-emission in opposite source order; registration-order permutations on the in-process registry",
+        "A program model (the same spec type the twin uses) is emitted as Rust source by an emitter that tracks the line and column of every attribute; the programs (one hand-written model with every special form + generated ones, each also with items in the opposite textual order) are compiled as harness = false bench targets and run: the registry dump (kind, display name, raw name, module path, file:line:col, generic dimensions, options as written), the cases executed by --test --include-ignored and the nodes of --list must equal what the model says, nothing else may be registered, empty types/consts/args lists register nothing, and both source orders must agree. Constructor order, which source order cannot control on ELF, is varied on the in-process registry (generated permutations must not change cases, shown nodes or effective options). Exploration only.",
+        "A generated program that does not compile is a generator fault (exit 2). Link order on Mach-O / COFF is not exercised. " + TWIN_NOTE,
+        "DESIGN.md section 4, C12 and E3"),
     "C13": (
         "property-based testing (model-based): reference selection rule (regex crate as matcher) vs executed cases and printed nodes of the real runner over generated entry trees and filter sets; in-process and through real command lines; FilterSet::is_match differential",
         "Generated crates (module trees, groups with custom names, args, types, consts, duplicate / non-ASCII / '::'-containing names, random registration order) and filter sets built from the tree; the set of benchmark bodies invoked and the multiset of nodes printed by the real runner (parsed back) must equal the reference selection: selected iff no skip matches and (no positive or some positive matches), per argument case, ancestors shown iff a selected case lies below. Also through --skip / positional / --exact on a real command line, and FilterSet::is_match against the reference on generated paths. Exploration only.",
@@ -111,7 +116,6 @@ CHECKS = {
 }
 
 NOT_YET = {
-    "C12": "check not finished in this revision: it needs compiled programs that use the real #[divan::bench] / #[divan::bench_group] macros (generator in progress, DESIGN.md section 4, E3); nothing is claimed for it yet",
 }
 
 def main():
